@@ -247,3 +247,89 @@ class TransformAndRoundingPens(Contract):
         prop("rounding-pen-rounds-to-nearest", lambda a, old, r: TransformAndRoundingPens._round_ok(a, r)),
         prop("replay-reproduces-the-recording", lambda a, old, r: _eq_contour(r[3], a._orig)),
     ]
+
+
+# -- AreaPen: the signed area is the line integral of the outline --------------------------------------
+
+def _bez(ps, t):
+    """de Casteljau value of a Bezier segment (tuple of points) at parameter t"""
+    pts = list(ps)
+    while len(pts) > 1:
+        pts = [((1 - t) * a[0] + t * b[0], (1 - t) * a[1] + t * b[1]) for a, b in zip(pts, pts[1:])]
+    return pts[0]
+
+
+def spec_area(contour):
+    """Green's theorem, exactly: A = 1/2 * sum over segments of the integral of (x dy - y dx),
+    evaluated in closed form from the Bernstein representation of each segment."""
+    from fractions import Fraction
+    from math import comb
+    segs, _ = segments_keep_all(contour)
+    total = 0
+    for op, ps in segs:
+        n = len(ps) - 1
+        # x(t) = sum_i B_i^n(t) x_i ; dy/dt = n * sum_j B_j^{n-1}(t) (y_{j+1} - y_j)
+        # integral_0^1 B_i^n B_j^{n-1} dt = C(n,i) C(n-1,j) / (C(2n-1, i+j) * 2n)
+        acc = 0
+        for i in range(n + 1):
+            for j in range(n):
+                w = Fraction(comb(n, i) * comb(n - 1, j), comb(2 * n - 1, i + j) * 2 * n) * n
+                acc = acc + w * (ps[i][0] * (ps[j + 1][1] - ps[j][1]) - ps[i][1] * (ps[j + 1][0] - ps[j][0]))
+        total = total + acc
+    return total / 2
+
+
+def segments_keep_all(contour):
+    contour = list(contour)
+    closed = contour[-1][0] == "closePath"
+    body = contour[:-1]
+    start = body[0][1][-1]
+    cur, segs = start, []
+    for op, pts in body[1:]:
+        segs.append((op, (cur,) + tuple(pts)))
+        cur = pts[-1]
+    if closed:
+        segs.append(("lineTo", (cur, start)))
+    return segs, (start, closed)
+
+
+@contract
+class AreaPenValue(Contract):
+    """AreaPen on closed contours of up to three segments (lines, quadratics, cubics; all points
+    symbolic): the value is the exact signed area enclosed by the outline (line integral of the
+    Bezier segments in closed form), it is negated by reversedContour, and it does not change when
+    the contour is translated."""
+    module = "fontTools.pens.areaPen"
+    qualname = "AreaPen._curveToOne"
+    props = ("C14",)
+    shadow_mode = "real"
+    level = "PF"
+    assumptions = ("A-REAL (0.5, 0.15 and /3 as exact rationals)",)
+    variants = tuple(v for v in ReversedContour.variants if v[1] and not v[2])
+
+    def variants_for(self, tier):
+        return tuple(v for v in self.variants if len(v[0]) <= 2) if tier == "quick" else self.variants
+
+    def args(self, S, variant):
+        self._S = S
+        return ReversedContour.args(self, S, variant)
+
+    def call(self, f, a):
+        from fontTools.pens.areaPen import AreaPen
+        from fontTools.pens.reverseContourPen import reversedContour
+        S = self._S
+        dx, dy = S.real("dx"), S.real("dy")
+
+        def area(contour):
+            pen = AreaPen()
+            for op, pts in contour:
+                getattr(pen, op)(*pts)
+            return pen.value
+        moved = [(op, tuple((p[0] + dx, p[1] + dy) for p in pts)) for op, pts in a.contour]
+        return area(list(a.contour)), area(list(reversedContour(list(a.contour)))), area(moved)
+
+    ensures = [
+        prop("equals-the-line-integral-of-the-outline", lambda a, old, r: eq(r[0], spec_area(a._orig))),
+        prop("negated-by-reversing", lambda a, old, r: eq(r[1], -r[0])),
+        prop("translation-invariant", lambda a, old, r: eq(r[2], r[0])),
+    ]
